@@ -939,6 +939,40 @@ fn gen_scratch(_prop: &str, rng: &mut Rng, run: u64) -> (Config, Vec<Op>) {
     if !systematic.is_empty() {
         plans.push(systematic);
     }
+    // mid-call preemption: a caller thread is parked at a scheduling point inside the word matcher
+    // while another caller thread makes a whole call (own PRNG stream: the clients' plans stay as
+    // they were before this fault kind existed)
+    if threads >= 2 {
+        let mut prng = Rng::from_u64(crate::rng::mix(rng.next_u64(), 0x9e37_79b9_7f4a_7c15));
+        let mut plan = Vec::new();
+        for _ in 0..prng.range(1, 6) {
+            let t = prng.below(threads);
+            let t2 = (t + 1 + prng.below(threads - 1)) % threads;
+            let jac = prng.chance(1, 2);
+            // words with repeated characters in different multiplicities, families sharing a prefix,
+            // and ordinary words: a verdict near the thresholds is what a disturbed scratch flips
+            let alph = *prng.pick(&["ab", "abc", "aebc1_", "abcdefghijklmnop", "аеёбв"]);
+            let mut pair = |prng: &mut Rng| {
+                let a = if prng.chance(1, 3) { synth_word(prng, alph, 9, 40) } else { synth_word(prng, alph, 2, 8) };
+                let b = match prng.below(4) {
+                    0 => a.clone(),
+                    1 => {
+                        // the same set of characters in other multiplicities
+                        let cs: Vec<char> = a.chars().collect();
+                        let n = cs.len().max(1);
+                        (0..n).map(|i| cs[(i * 7 + 3) % n]).map(|c| if prng.chance(1, 3) { cs[0] } else { c }).collect()
+                    }
+                    _ => mutate(prng, &a, alph),
+                };
+                (a, b)
+            };
+            let (r, q) = pair(&mut prng);
+            let (r2, q2) = pair(&mut prng);
+            let at = if prng.chance(1, 2) { 1 } else { prng.range(1, 6) };
+            plan.push(Op::Preempt { t, t2, jac, r, q, fin: prng.chance(2, 3), r2, q2, fin2: prng.chance(2, 3), at });
+        }
+        plans.push(plan);
+    }
     // the scheduler interleaves the clients' planned comparisons: call order is the schedule
     let mut ops = Vec::new();
     for p in plans.iter_mut() {
